@@ -916,33 +916,36 @@ end tok
 section comments
 variable {S E : Type} (P : PLang) (B : Builder S E) (inputs : List E) (defaults : Bool)
 
-theorem comment_junk (junk : List String) (hj : "\n" ∉ junk) (n : Nat) (s : EState S E) (p : String) (rest : List String) :
-    parseExprLoop P B inputs defaults (n + junk.length) { s with comment := true, prevTok := p } (junk ++ rest)
-    = parseExprLoop P B inputs defaults n { s with comment := true, prevTok := lastTok p junk } rest := by
-  induction junk generalizing p with
+/-- inside a comment every token up to the line break is skipped; nothing else changes (not even "the previous token") -/
+theorem comment_junk (junk : List String) (hj : "\n" ∉ junk) (n : Nat) (s : EState S E) (rest : List String) :
+    parseExprLoop P B inputs defaults (n + junk.length) { s with comment := true } (junk ++ rest)
+    = parseExprLoop P B inputs defaults n { s with comment := true } rest := by
+  induction junk with
   | nil => rfl
   | cons t junk ih =>
     have ht : t ≠ "\n" := fun e => hj (by simp [e])
     have hj' : "\n" ∉ junk := fun e => hj (by simp [e])
-    rw [List.length_cons, ← Nat.add_assoc, List.cons_append, parseExprLoop, lastTok_cons]
+    rw [List.length_cons, ← Nat.add_assoc, List.cons_append, parseExprLoop]
     by_cases h1 : t = "#"
     · subst h1
       simp only [beq_self_eq_true, if_true]
-      exact ih hj' "#"
+      exact ih hj'
     · simp only [beq_iff_eq, h1, ht, if_false, if_true]
-      exact ih hj' t
+      exact ih hj'
 
+/-- a whole comment, `#` up to and including the line break, leaves the loop state as it was -/
 theorem comment_skip (junk : List String) (hj : "\n" ∉ junk) (n : Nat) (s : EState S E) (hc : s.comment = false)
     (rest : List String) :
     parseExprLoop P B inputs defaults (n + junk.length + 2) s ("#" :: junk ++ "\n" :: rest)
-    = parseExprLoop P B inputs defaults n { s with prevTok := "\n" } rest := by
+    = parseExprLoop P B inputs defaults n s rest := by
+  obtain ⟨st, stack, c, p⟩ := s
+  simp only at hc
+  subst hc
   rw [show n + junk.length + 2 = ((n + 1) + junk.length) + 1 by omega, List.cons_append, parseExprLoop]
   simp only [beq_self_eq_true, if_true]
-  have := comment_junk P B inputs defaults junk hj (n + 1) s "#" ("\n" :: rest)
-
+  have := comment_junk P B inputs defaults junk hj (n + 1) ⟨st, stack, false, p⟩ ("\n" :: rest)
   rw [this, parseExprLoop]
-  simp [hc]
-  
+  simp
 
 end comments
 
@@ -1054,20 +1057,20 @@ theorem strip_loop (ts : List String) :
       rw [parseExprLoop]
       simp only [beq_self_eq_true, if_true]
       simp only [stripTrivia, beq_self_eq_true, if_true] at hcol ⊢
-      exact ih { s with comment := true, prevTok := "#" } p n hcol
+      exact ih { s with comment := true } p n hcol
     · by_cases h2 : tok = "\n"
       · subst h2
         rw [parseExprLoop]
         simp only [beq_iff_eq, h1, if_false, if_true]
         simp only [stripTrivia, beq_iff_eq, h1, if_false, if_true] at hcol ⊢
-        exact ih { s with comment := false, prevTok := "\n" } p n hcol
+        exact ih { s with comment := false } p n hcol
       · cases hc : s.comment with
         | true =>
           rw [parseExprLoop]
           simp only [beq_iff_eq, h1, h2, hc, if_false, if_true]
           rw [hc] at hcol
           simp only [stripTrivia, beq_iff_eq, h1, h2, if_false, if_true] at hcol ⊢
-          have := ih { s with prevTok := tok } p n (by simpa only [hc] using hcol)
+          have := ih s p n (by simpa only [hc] using hcol)
           simpa only [hc] using this
         | false =>
           rw [hc] at hcol
